@@ -371,6 +371,7 @@ def simulate_std(h, desc, descrs, mps, rng):
     ifc = h.interface
     gd = h.captured[0]
     lean_in, lean_out, mon_in, mon_out = [], [], [], []
+    ab = rng.fork("abandon")
 
     async def tb(ctx):
         st = {"t": 0, "new": 0}
@@ -417,6 +418,7 @@ def simulate_std(h, desc, descrs, mps, rng):
             await idle(rng.range(1, 4))
             received = 0
             stalled = False
+            abandoned = False
             for k in range(300):
                 npk = len(cons.packets)
                 o = await cycle(data_requested=1)
@@ -438,9 +440,14 @@ def simulate_std(h, desc, descrs, mps, rng):
                 received += len(pkt["bytes"])
                 if len(pkt["bytes"]) < mps or received >= wl or st["t"] > budget + 1500:
                     break
+                if ab.chance(15):
+                    # the host abandons the transfer after an ACKed packet: no further IN, no status stage, the next
+                    # SETUP follows (own random stream, so that the other choices of the script do not move)
+                    abandoned = True
+                    break
                 await idle(rng.range(2, 8))
             await idle(rng.range(2, 6))
-            if not stalled:
+            if not stalled and not abandoned:
                 await cycle(status=1)                       # status stage
             await idle(rng.range(2, 6))
 
